@@ -35,25 +35,59 @@ def plain(t):
     return not any(n[0] == 'binop' for n in walk(t))
 
 
+def deciding_switch(b, bi, local, hops=10):
+    """the switch that branches on the boolean computed into `local` in block bi: in that block, or at the end of the straight
+    line of moves / negations that carries it there (the return of an inlined predicate); -> (switch terminator, negated?)"""
+    from ..facts import succs
+    aliases = {local: False}
+    cur = bi
+    first = True
+    for _ in range(hops):
+        blk = b.blocks[cur]
+        seen_def = not first
+        for st in blk['stmts']:
+            if st['k'] != 'assign' or st['pl']['p']:
+                continue
+            rv = st['rv']
+            if rv['k'] in ('use', 'cast') and rv['op']['k'] in ('copy', 'move') and not rv['op']['pl']['p'] and rv['op']['pl']['l'] in aliases:
+                aliases[st['pl']['l']] = aliases[rv['op']['pl']['l']]
+            elif rv['k'] == 'unop' and rv['op'] == 'Not' and rv['a']['k'] in ('copy', 'move') and not rv['a']['pl']['p'] and rv['a']['pl']['l'] in aliases:
+                aliases[st['pl']['l']] = not aliases[rv['a']['pl']['l']]
+        t = blk['term']
+        if t['k'] == 'switch':
+            if t['op']['k'] in ('copy', 'move') and not t['op']['pl']['p'] and t['op']['pl']['l'] in aliases:
+                return t, aliases[t['op']['pl']['l']]
+            return None
+        nx = [x for x in succs(t) if not b.blocks[x].get('cleanup')]
+        if len(nx) != 1 or t['k'] in ('call', 'return'):
+            return None
+        cur = nx[0]
+        first = False
+    return None
+
+
 def refusals(facts, T, bodies):
     """[(body, block, loc, a, rel, b)]: `a rel b` (rel in Gt / Ge) is refused - the edge taken under it reaches error exits only"""
     out = []
     for b in bodies:
         for bi in b.live:
-            sw = b.blocks[bi]['term']
             for st in b.blocks[bi]['stmts']:
                 if st['k'] != 'assign' or st['pl']['p'] or st['rv']['k'] != 'binop' or st['rv']['op'] not in NEG:
                     continue
-                if sw['k'] != 'switch' or sw['op']['k'] not in ('copy', 'move') or sw['op']['pl']['l'] != st['pl']['l']:
+                dsw = deciding_switch(b, bi, st['pl']['l'])
+                if dsw is None:
                     continue
+                sw, flipped = dsw
                 ta = simplify(T.resolve_env(simplify(T.of_operand(b, st['rv']['a']))))
                 tb = simplify(T.resolve_env(simplify(T.of_operand(b, st['rv']['b']))))
                 na, nb = names_of(ta), names_of(tb)
                 if len(na) != 1 or len(nb) != 1 or na == nb or not plain(ta) or not plain(tb):
                     continue
                 t_edge, f_edge = sw['otherwise'], dict(zip(sw['vals'], sw['targets'])).get(0)
+                if flipped:
+                    t_edge, f_edge = f_edge, t_edge
                 rel = None
-                if exit_outcomes_from(b, t_edge) <= {'Err'}:
+                if t_edge is not None and exit_outcomes_from(b, t_edge) <= {'Err'}:
                     rel = st['rv']['op']
                 elif f_edge is not None and exit_outcomes_from(b, f_edge) <= {'Err'}:
                     rel = NEG[st['rv']['op']]
